@@ -473,6 +473,11 @@ _STR_PLAIN = "abcxyzABCXYZ0189 _-+.,:;()#=$*/!?<>[]{}|~^%&@\""
 
 def _str_body(r, rich=True):
     n = r.choice([0, 1, 1, 2, 3, 5, 8, 13, 30])
+    big = r.random()
+    if big < 0.015:
+        n = r.choice([80, 300, 1100])        # longer than one output line / than the small fixed buffers
+    elif big < 0.018:
+        n = r.choice([4200, 9000])           # longer than BUFSIZ
     out = []
     for _ in range(n):
         c = r.random()
@@ -630,9 +635,11 @@ class PopGen:
         else:
             top = hi if hi is not None else lo + r.choice([0, 1, 2, 3, 6])
             n = r.randint(lo, max(lo, top))
+            if hi is None and depth == 0 and r.random() < 0.02:
+                n = r.choice([40, 130, 600])     # an aggregate that spans many output lines
         vals = []
         tries = 0
-        while len(vals) < n and tries < 50:
+        while len(vals) < n and tries < 50 + 2 * n:
             tries += 1
             v = self.value(t["elem"], depth + 1)
             if v is None:
